@@ -1,7 +1,8 @@
 SPECIFICATION TraceSpec
 CONSTANTS
   Users = {"a", "b", "c"}
-  Contracts = {"x", "y"}
+  Contracts = {"x", "y", "s"}
+  Hangers = {"z"}
   Ghosts = {"g"}
   Keys = {"k1", "k2"}
   Prices = {0, 1, 2}
